@@ -1163,6 +1163,11 @@ class Generator:
                     if src.is_p(q, "|") and (src.is_p(q - 1, "(") or src.is_p(q - 1, ",")) and src.is_id(q + 1) and src.is_p(q + 2, "|"):
                         cl.append(q)
                     q += 1
+                if n > len(cl) and "opt" in sec["arg"].split()[1:]:
+                    # `//@closure n opt`: the closure is a detail of how a value is computed, not what the
+                    # contract speaks about; code that no longer has it is checked without the header
+                    rules["R11-dropped"] = rules.get("R11-dropped", 0) + 1
+                    continue
                 if n < 1 or n > len(cl):
                     raise LostAnchor("%s: slice %s has %d simple closures, directive names closure %d" % (file, name, len(cl), n))
                 c0 = cl[n - 1]
